@@ -118,3 +118,12 @@ Definition stmt_mis_y (cs : list stmt_case) : list N :=
   flat_map (fun '(id, f, c, impl, _) => if Bool.eqb (y_stmt_late f c) impl then [] else [id]) cs.
 Definition stmt_mis_g (cs : list stmt_case) : list N :=
   flat_map (fun '(id, _, _, _, ref) => if Bool.eqb false ref then [] else [id]) cs.
+
+(** id, keys of the literal's elements, index at which the host found each element's value and the
+    length it received (impl), the same for the literal evaluated natively *)
+Definition lit_case := (N * list (option nat) * (list nat * nat) * (list nat * nat))%type.
+Definition lit_eqb (a b : list nat * nat) : bool := list_eqb Nat.eqb (fst a) (fst b) && Nat.eqb (snd a) (snd b).
+Definition lit_mis_y (cs : list lit_case) : list N :=
+  flat_map (fun '(id, ks, impl, _) => if lit_eqb (y_lit ks) impl then [] else [id]) cs.
+Definition lit_mis_g (cs : list lit_case) : list N :=
+  flat_map (fun '(id, ks, _, ref) => if lit_eqb (g_lit ks) ref then [] else [id]) cs.
